@@ -41,8 +41,15 @@ CORPUS = os.path.join(os.path.dirname(os.path.abspath(__file__)), "dsl_corpus.py
 
 
 def split_name(alg_name):
-    """`main` / `nonhermitian`: shipped algorithm; `corpus:<name>`: a program of contracts/dsl_corpus.py"""
-    return (alg_name[7:], CORPUS) if alg_name.startswith("corpus:") else (alg_name, None)
+    """`main` / `nonhermitian`: shipped algorithm; `corpus:<name>`: a program of contracts/dsl_corpus.py;
+    `gen:<seed>:<count>:<k>`: the k-th of `count` programs generated from `seed` by contracts/dsl_gen.py"""
+    if alg_name.startswith("corpus:"):
+        return alg_name[7:], CORPUS
+    if alg_name.startswith("gen:"):
+        from contracts import dsl_gen
+        _g, seed, count, k = alg_name.split(":")
+        return f"gen_{k}", dsl_gen.module_path(int(seed), int(count))
+    return alg_name, None
 
 
 def read_spec(alg_name):
